@@ -25,6 +25,19 @@
 (*     ODiMO_MPS) with real-valued parameters.  All costs of one trace are *)
 (*     integers in ONE harness-chosen decimal scale (full scale 5e7..5e8). *)
 (*                                                                         *)
+(* kind "hist"  [method, ev]                                               *)
+(*     one call history enumerated by CostDepsHistMC replayed on a real    *)
+(*     model: ev[1] is the initial state (all switches on, training mode,  *)
+(*     one training forward), ev[i] = [a, b, ok, reads] a call and the     *)
+(*     costs read after it ([d, c, ok]; PIT: continuous and discrete).     *)
+(*     TLC folds CostDeps!RefStep over the calls and requires: two reads   *)
+(*     with the same RefKey (parameter version + discrete flag for PIT;    *)
+(*     version + last forward for MPS / SuperNet) return the same cost.    *)
+(*                                                                         *)
+(* probes with dep = TRUE are "producer -> consumer" networks: TLC         *)
+(* evaluates CostDeps!Dep for every channel-mask element (the dependency   *)
+(* matrix) and requires a non-zero gradient for every TRUE entry.          *)
+(*                                                                         *)
 (* PROPERTY clauses (C12.xyz) are evaluated on observed values only.       *)
 (* PREDICTION clauses compare the observation with the model of CostDeps   *)
 (* (cost value, gradient support); a failed prediction alone is "drift:".  *)
@@ -207,6 +220,11 @@ CheckProbe(t) ==
         \* discrete cost: every RELEVANT trainable mask element (decided on the lattice by CostDeps!DiscRelevant) must have a
         \* non-zero gradient at this parameter value
         shp == ShareMap(t.arch)
+        \* dependency matrix (producer -> consumer networks): every TRUE entry must receive a non-zero gradient
+        IsDepEl(i) == t.method = "pit" /\ t.dep /\ t.E[i].k = "a" /\ t.E[i].tr
+        DepAt == [i \in 1..nE |-> IsDepEl(i) /\ Dep(t.metric, t.arch, shp, <<"a", t.E[i].n, t.E[i].i>>)]
+        badDep == First(nE, LAMBDA i : IsDepEl(i) /\ DepAt[i] /\ ~(t.E[i].hg /\ t.E[i].nz))
+        driftDep == First(nE, LAMBDA i : IsDepEl(i) /\ ~DepAt[i] /\ t.E[i].nz)
         badGradDisc == First(nE, LAMBDA i : t.method = "pit" /\ t.disc /\ t.E[i].tr /\ t.E[i].k \in MaskKinds /\
                              ~(t.E[i].hg /\ t.E[i].nz) /\ DiscRelevant(t.metric, t.arch, shp, <<t.E[i].k, t.E[i].n, t.E[i].i>>))
         knownGrad == First(nE, LAMBDA i : GradFails(i) /\ F46Sig(t, t.E[i]))
@@ -219,7 +237,7 @@ CheckProbe(t) ==
         \* predictions (PIT): trainability and gradient support from the architecture alone
         driftTr == First(nE, LAMBDA i : isPit /\ t.E[i].k \in MaskKinds /\
                         t.E[i].tr # (Trainable(a, <<t.E[i].k, t.E[i].n, t.E[i].i>>) /\ FlagOf(t, t.E[i].k)))
-        driftNz == First(nE, LAMBDA i : isPit /\ t.E[i].k \in MaskKinds /\
+        driftNz == First(nE, LAMBDA i : isPit /\ (Smooth(t.metric) \/ a.dim = 2) /\ t.E[i].k \in MaskKinds /\
                         t.E[i].nz # (PredNonZero(a, <<t.E[i].k, t.E[i].n, t.E[i].i>>) /\ FlagOf(t, t.E[i].k)))
         Logged  == {<<t.E[i].k, t.E[i].n, t.E[i].i>> : i \in 1..nE}
         Missing == IF isPit THEN {e \in Elements(a) : FlagOf(t, e[1]) /\ e \notin Logged} ELSE {}
@@ -250,6 +268,10 @@ CheckProbe(t) ==
     ELSE IF badGradDisc # 0
          THEN "C12.gradient " \o t.method \o "/" \o t.metric \o " (discrete): " \o ElemStr(t.E[badGradDisc]) \o " gets a "
                   \o (IF t.E[badGradDisc].hg THEN "zero" ELSE "missing") \o " gradient although lifting it across the threshold changes the kept set / the discrete cost in a corner context"
+    ELSE IF badDep # 0
+         THEN "C12.dependency " \o t.metric \o (IF t.disc THEN " (discrete)" ELSE " (continuous)") \o ": the metric depends on the alive count governed by "
+                  \o ElemStr(t.E[badDep]) \o " (reference formula, CostDeps!Dep) but its gradient is "
+                  \o (IF t.E[badDep].hg THEN "zero" ELSE "missing")
     ELSE IF badReach # 0
          THEN "C12.gradient " \o t.method \o "/" \o t.metric \o ": increasing " \o ElemStr(t.E[badReach]) \o " raises the cost from "
                   \o ToString(t.c) \o " to " \o ToString(t.E[badReach].cu) \o " but no gradient reaches it"
@@ -270,6 +292,7 @@ CheckProbe(t) ==
          THEN "drift:support " \o t.metric \o " " \o ElemStr(t.E[driftNz]) \o ": gradient is "
                   \o (IF t.E[driftNz].nz THEN "non-zero" ELSE "zero") \o ", the model predicts the opposite"
     ELSE IF Missing # {} THEN "drift:support: model element " \o ToString(CHOOSE e \in Missing : TRUE) \o " has no parameter entry"
+    ELSE IF driftDep # 0 THEN "drift:dependency " \o t.metric \o " " \o ElemStr(t.E[driftDep]) \o ": non-zero gradient where the reference formula shows no dependency"
     ELSE IF driftMix # 0
          THEN "drift:mix " \o t.method \o "/" \o t.metric \o " " \o ElemStr(t.E[driftMix]) \o ": gradient non-zero = "
                   \o ToString(t.E[driftMix].nz) \o " but candidate cost " \o ToString(t.E[driftMix].ck) \o " vs mean " \o ToString(t.c)
@@ -277,7 +300,33 @@ CheckProbe(t) ==
          THEN "drift:mix " \o t.method \o "/" \o t.metric \o " " \o ElemStr(t.E[driftUp]) \o ": raising the coefficient raises the cost although its candidate is cheaper than the mean"
     ELSE "ok"
 
+(* ------------------------------ histories ------------------------------- *)
+RECURSIVE RefAt(_, _)
+ActOf(t, i) == <<t.ev[i].a, t.ev[i].b>>
+RefAt(t, i) == IF i <= 1 THEN RefInit(t.method) ELSE RefStep(t.method, RefAt(t, i - 1), ActOf(t, i))
+RECURSIVE CallsStr(_, _)
+CallsStr(t, i) == IF i <= 1 THEN "init" ELSE CallsStr(t, i - 1) \o "; " \o t.ev[i].a \o (IF t.ev[i].b = "" THEN "" ELSE "(" \o t.ev[i].b \o ")")
+CheckHist(t) ==
+    LET n == Len(t.ev)
+        Reads == {<<i, q>> : i \in 1..n, q \in 1..2} \cap {p \in (1..n) \X (1..2) : p[2] <= Len(t.ev[p[1]].reads)}
+        Rd(p) == t.ev[p[1]].reads[p[2]]
+        badFin == {p \in Reads : ~Rd(p).ok \/ Rd(p).c < 0}
+        bad == {pq \in Reads \X Reads :
+                   /\ pq[1][1] < pq[2][1] /\ Rd(pq[1]).d = Rd(pq[2]).d /\ Rd(pq[1]).ok /\ Rd(pq[2]).ok
+                   /\ RefKey(t.method, RefAt(t, pq[1][1]), Rd(pq[1]).d) = RefKey(t.method, RefAt(t, pq[2][1]), Rd(pq[2]).d)
+                   /\ ~Within(Rd(pq[1]).c, Rd(pq[2]).c, Tol)}
+    IN
+    IF n = 0 \/ t.ev[1].a # "init" THEN "trace: malformed history"
+    ELSE IF badFin # {} THEN "C12.finite " \o t.method \o ": cost is not a finite non-negative number after  " \o CallsStr(t, (CHOOSE p \in badFin : TRUE)[1])
+    ELSE IF bad # {}
+         THEN LET pq == CHOOSE pq \in bad : \A o \in bad : pq[2][1] <= o[2][1] IN
+              "C12.history " \o t.method \o "/" \o t.metric \o (IF Rd(pq[1]).d THEN " (discrete)" ELSE " (continuous)") \o ": cost "
+                  \o ToString(Rd(pq[2]).c) \o " after  " \o CallsStr(t, pq[2][1]) \o "  but " \o ToString(Rd(pq[1]).c) \o " after  "
+                  \o CallsStr(t, pq[1][1]) \o "  - same parameter values" \o (IF t.method = "pit" THEN "" ELSE " and same last forward pass")
+    ELSE "ok"
+
 Check(t) == CASE t.kind = "filter" -> CheckFilter(t)
+              [] t.kind = "hist"   -> CheckHist(t)
               [] t.kind = "lat"    -> CheckLat(t)
               [] t.kind = "probe"  -> CheckProbe(t)
               [] OTHER             -> "trace: unknown kind"
